@@ -165,6 +165,13 @@ func (j *raceJob) describe() string {
 }
 
 func (j *raceJob) run() string {
+	s, _ := j.runLate()
+	return s
+}
+
+// runLate also returns a function that renders the returned blocks and binding again
+// later: results a caller still holds must not change when other calls run.
+func (j *raceJob) runLate() (string, func() string) {
 	var out, log bytes.Buffer
 	opts := []bcl.Option{bcl.OptOutput(&out), bcl.OptLogger(&log), bcl.OptDisasm(j.disasm), bcl.OptStats(true)}
 	var prog *bcl.Prog
@@ -176,7 +183,7 @@ func (j *raceJob) run() string {
 		prog, err = bcl.ParseFile(f, opts...)
 	}
 	if err != nil {
-		return fmt.Sprintf("parse err=%q out=%q log=%q", err.Error(), out.Bytes(), log.Bytes())
+		return fmt.Sprintf("parse err=%q out=%q log=%q", err.Error(), out.Bytes(), log.Bytes()), nil
 	}
 	d, derr := dumpOf(prog)
 	head := fmt.Sprintf("parse ok dump=%x dumperr=%v out=%q log=%q", d, derr, out.Bytes(), log.Bytes())
@@ -187,7 +194,8 @@ func (j *raceJob) run() string {
 	if err != nil {
 		e = err.Error()
 	}
-	return fmt.Sprintf("%s | exec err=%q out=%q log=%q blocks=%s binding=%s", head, e, out.Bytes(), log.Bytes(), fmtBlocks(blocks), fmtBinding(binding))
+	late := func() string { return fmt.Sprintf("blocks=%s binding=%s", fmtBlocks(blocks), fmtBinding(binding)) }
+	return fmt.Sprintf("%s | exec err=%q out=%q log=%q %s", head, e, out.Bytes(), log.Bytes(), late()), late
 }
 
 // raceSmallReads is a script of reads of lo..hi bytes with occasional empty reads and yields.
@@ -392,6 +400,10 @@ func raceIndependent(res *Result, rl *raceLog, seed int64, tag string) {
 			if r.Intn(5) == 0 {
 				src = []byte(protoValidSource(r, 3000+r.Intn(6000), map[string]int{}))
 			}
+			if r.Intn(3) == 0 {
+				// a slice binding of several blocks, unlikely to fail at run time
+				src = []byte(fmt.Sprintf("def it \"a%d\" { n = %d }\ndef it \"b\" { n = %d }\ndef other { }\ndef it \"c\" { n = %d }\nbind it:all -> slice\n", r.Intn(100), r.Intn(1000), r.Intn(1000), r.Intn(1000)))
+			}
 			j := &raceJob{src: src, trace: r.Intn(4) == 0, disasm: r.Intn(3) == 0}
 			if r.Intn(2) == 0 {
 				j.steps = raceSmallReads(r, len(src), 1, 200, true)
@@ -430,10 +442,24 @@ func raceIndependent(res *Result, rl *raceLog, seed int64, tag string) {
 		wg.Add(1)
 		go func(w int) {
 			defer wg.Done()
+			var heldLate func() string
+			var heldWas, heldDesc string
 			for round := 0; round < rounds; round++ {
 				for k, j := range jobs[w] {
-					got := j.run()
+					got, late := j.runLate()
 					res.Eval(1)
+					// the results of the previous call, still held, are unchanged by this one
+					if heldLate != nil {
+						if now := heldLate(); now != heldWas {
+							res.Fail(Failure{Kind: "oracle", Op: "results held across a later call",
+								Input: fmt.Sprintf("scenario (b), %s, goroutine %d: blocks and binding returned by %s, rendered again after the same goroutine made its next call while %d others were running", tag, w, heldDesc, workers-1),
+								Impl:  now, Expected: "unchanged: " + heldWas})
+						}
+					}
+					heldLate = late
+					if late != nil {
+						heldWas, heldDesc = late(), j.describe()
+					}
 					if got != want[w][k] {
 						res.Fail(Failure{Kind: "oracle", Op: "Parse+Execute among concurrent calls",
 							Input: fmt.Sprintf("scenario (b), %s, goroutine %d of %d, call %d, repetition %d: %s", tag, w, workers, k, round, j.describe()),
